@@ -10,9 +10,8 @@ TEXT = {
     "C01": ("bounded symbolic model checking of the real pool code: one attempt (re-entrant urlopen cut) from an arbitrary valid "
             "pool state with a fault at any I/O step, invariant re-established => inductive over retry/redirect chains",
             "CrossHair/z3 per path; in-memory socket layer replaces the kernel; queue.LifoQueue, http.client trusted"),
-    "C02": ("symbolic-interference checking: the racing close()/other-thread queue actions are placed at symbolic ticks over "
-            "every shared-state access of one request (rely/guarantee)",
-            "no free byte-code interleavings; queue.LifoQueue linearizable; see DESIGN 6"),
+    "C02": ('every schedule (two pre-emptions of the worker, one of the other thread) of two real threads running the real pool code in lock-step; scheduling points = every access to pool.pool and every queue operation; the other thread is the real close() or a second request',
+            'two threads; pre-emption only at shared-state accesses (others commute); queue.LifoQueue internals trusted; liveness approximated by quiescence'),
     "C03": ("bounded symbolic model checking of tagged request/response histories on pooled connections",
             "in-memory peer; http.client trusted"),
     "C04": ("Retry.increment decided for unbounded symbolic counters (partitioned), sleeps for symbolic float backoff "
@@ -22,21 +21,21 @@ TEXT = {
             "in-memory peers; oracle from RFC 9110 15.4 and urljoin semantics"),
     "C06": ("one redirect hop with symbolic header casings/containers/origin deltas; 2-hop chains",
             "hashing pins free header names; names from casing pools"),
-    "C07": ("symbolic execution of the TLS decision code over the full settings lattice with OpenSSL replaced by a contract stub",
-            "real handshakes outside; stub contract is the trusted base"),
+    "C07": ('every point of the client-settings lattice x every server certificate shape x 4 topologies through the real TLS decision code with OpenSSL replaced by its documented contract',
+            'real handshakes outside; the contract of kit/tls.py is the trusted base'),
     "C08": ("label-template symbolic execution of match_hostname + SMT language lemmas on the regex _dnsname_match compiles; "
             "symbolic pin edit scripts for fingerprints",
             "hashlib concrete; hmac.compare_digest replaced by =="),
-    "C09": ("symbolic execution of ProxyManager routing over in-memory proxy/origin peers with TLS cut at the wrap function",
-            "TLS bytes abstracted"),
+    "C09": ('every routing configuration (CONNECT reply, certificate validity per leg, host form, port, proxy headers, caller Host, request count, tunnel closed in between) through the real ProxyManager/tunnel code over an in-memory relaying proxy',
+            'TLS bytes abstracted by the contract stub'),
     "C10": ("SMT language lemmas on the live validation regexes + symbolic wire harnesses with an independent strict request parser",
             "http.client's own checks are part of the executed code"),
     "C11": ("symbolic body content/shape through HTTPConnection.request with an independent framing parser; resend histories",
             "file objects are fixtures"),
-    "C12": ("symbolic read-call scripts (kinds and amounts) over fixture payloads/codings through the real http.client reader",
-            "codecs are C: concrete fixtures"),
-    "C13": ("symbolic cut positions / corrupted bytes x read patterns; header sanity with symbolic integers",
-            "codecs concrete"),
+    "C12": ('every read script (<=2 prefix calls + finisher, kinds and amounts) x segmentation x decode flag over fixture payloads/codings/framings through the real http.client reader',
+            'codecs are C: concrete fixtures; values are enumerated, not symbolic, once they reach C'),
+    "C13": ('every cut position / single-byte corruption x read pattern x segmentation on pooled connections, followed by a second request; Content-Length header forms',
+            "codecs concrete; reference decoders decide 'undecodable'"),
     "C14": ("SMT regular-language lemmas (any length) on the compiled URL patterns + solver-enumerated URL skeleton holes "
             "through the real parse_url against an independent RFC 3986 reading",
             "running-time clause not decided; IDNA tables outside"),
@@ -53,6 +52,17 @@ TEXT = {
     "C20": ("per-code-point lemma for the WHATWG escaping + one symbolic component through the encoder and an independent strict parser",
             "BytesIO realises values: alphabet-bounded"),
 }
+
+SYM = "bounded symbolic execution of the real Python code with an SMT solver (CrossHair 0.0.110 + z3 5.1): symbolic values flow through urllib3, z3 decides every branch"
+ENUM = ("SMT-driven exhaustive exploration of a bounded space: one symbolic index pinned by z3-decided bisection (each point exactly one "
+        "path, closed path tree = all points covered), each point executed on the real code (CrossHair 0.0.110 + z3 5.1)")
+LEM = "; SMT regular-language queries (z3 sequence/regex theory, cvc5 cross-check) generated from the live compiled patterns, strings of any length"
+TECH = {"C01": SYM, "C02": ENUM + "; two real threads in lock-step under the solver-chosen schedule", "C03": ENUM, "C04": SYM + "; " + ENUM,
+        "C05": SYM + "; " + ENUM, "C06": ENUM + "; " + SYM, "C07": ENUM, "C08": ENUM + LEM, "C09": ENUM, "C10": ENUM + LEM, "C11": ENUM,
+        "C12": ENUM, "C13": ENUM, "C14": ENUM + LEM, "C15": ENUM, "C16": SYM, "C17": SYM, "C18": SYM + "; " + ENUM, "C19": SYM, "C20": SYM}
+ENGINE = {k: ("E1-sym" if v.startswith("bounded") else "E1-enum") + (" + E1-enum" if (v.startswith("bounded") and "SMT-driven" in v) else "")
+          + (" + E1-sym" if (not v.startswith("bounded") and "bounded symbolic" in v) else "") + (" + E2" if "regular-language" in v else "")
+          for k, v in TECH.items()}
 
 NOT_YET = "check not built yet in this tree (design in DESIGN.md section 3); no claim is made"
 
@@ -72,14 +82,12 @@ def main():
                 "thorough_cmd": "./vcheck %s --tier thorough" % pid,
                 "evidence_file": "evidence/%s.json" % pid,
                 "replay_cmd_template": "./vcheck %s --replay {path}" % pid,
-                "engine": "E1 CrossHair/z3 on /repo/src" + (" + E2 regex->z3 lemmas" if pid in ("C08", "C10", "C14") else ""),
+                "engine": ENGINE[pid],
                 "level_claimed": {"category": "model_checking", "text": t + "; every result is bounded (see evidence bounds), "
                                   "CONFIRMED = all paths inside the bound decided by z3, otherwise reported explored-only",
                                   "design_ref": "DESIGN.md 3 " + pid},
                 "level_note": note,
-                "technique": "bounded symbolic execution of the real Python code with an SMT solver (CrossHair 0.0.110 + z3 5.1)"
-                             + ("; SMT regular-language queries generated from the live compiled patterns"
-                                if pid in ("C08", "C10", "C14") else ""),
+                "technique": TECH[pid],
             })
         else:
             na.append({"property_id": pid, "reason": NA_OVERRIDE.get(pid, NOT_YET)})
@@ -92,8 +100,10 @@ def main():
                                       "--continue-on-collection-errors",
                   "source_commits": [], "add_only": True},
         "engines": [
-            {"name": "E1", "path": "engine/worker.py", "serves_properties": [c["property_id"] for c in checks],
+            {"name": "E1-sym", "path": "engine/worker.py", "serves_properties": [p for p in TECH if "bounded symbolic" in TECH[p]],
              "kind_free_text": "CrossHair symbolic execution of /repo/src modules, one condition per process, z3 decides each path"},
+            {"name": "E1-enum", "path": "kit/h.py", "serves_properties": [p for p in TECH if "SMT-driven" in TECH[p]],
+             "kind_free_text": "one symbolic index per partition pinned by z3-decided bisection; the decoded point runs on the real code"},
             {"name": "E2", "path": "engine/re2smt.py", "serves_properties": ["C08", "C10", "C14"],
              "kind_free_text": "regex -> z3 sequence/regex theory; language emptiness/inclusion; cvc5 second opinion"},
         ],
